@@ -19,9 +19,13 @@ import sys
 import time
 
 ROOT = os.path.dirname(os.path.dirname(os.path.abspath(__file__)))
-REPO = os.environ.get("VERIF_REPO", "/repo")
-WORK = os.path.join(ROOT, "_work")
-COQ = os.path.join(ROOT, "coq")
+REPO = os.path.realpath(os.environ.get("VERIF_REPO", "/repo"))
+# VERIF_REPO=<scratch copy or worktree of /repo> runs the same checks against another tree (used to try
+# breaking changes without touching /repo): everything it writes then goes to _work/alt-<hash>/
+ALT = REPO != "/repo"
+WORK = os.path.join(ROOT, "_work") if not ALT else os.path.join(ROOT, "_work", "alt-" + hashlib.sha256(REPO.encode()).hexdigest()[:10])
+OUTDIR = ROOT if not ALT else WORK       # evidence/ and replays/ live here
+COQ = os.path.join(ROOT, "coq") if not ALT else os.path.join(WORK, "coq")   # alt runs get a private copy
 GUARD = "NANO_VERIF"
 NCPU = os.cpu_count() or 4
 
@@ -80,6 +84,11 @@ class Lock:
 # 1. repo build
 # ------------------------------------------------------------------------------------------------
 
+def git_dir():
+    rc, out = sh("git -C %s rev-parse --absolute-git-dir" % shlex.quote(REPO))
+    return out.strip() if rc == 0 else os.path.join(REPO, ".git")
+
+
 def build_repo(variant="rel"):
     """incremental library-only build of /repo's working tree with hooks on; returns build dir"""
     bdir = os.path.join(WORK, "build-" + variant)
@@ -92,11 +101,11 @@ def build_repo(variant="rel"):
                    "-DCMAKE_EXE_LINKER_FLAGS=%s") % (
                 shlex.quote(REPO), shlex.quote(bdir), shlex.quote((BASE_CXXFLAGS + " " + xf).strip()),
                 shlex.quote(lf))
-            rc, out = sh(cmd, timeout=600, env={"GIT_DIR": os.path.join(REPO, ".git")})
+            rc, out = sh(cmd, timeout=600, env={"GIT_DIR": git_dir()})
             if rc != 0:
                 raise CheckError("cmake configure failed:\n" + out[-3000:])
         rc, out = sh("ninja -C %s -j%d" % (shlex.quote(bdir), NCPU), timeout=3000,
-                     env={"GIT_DIR": os.path.join(REPO, ".git")})
+                     env={"GIT_DIR": git_dir()})
         if rc != 0:
             raise CheckError("library build failed (variant %s):\n%s" % (variant, out[-4000:]))
     return bdir
@@ -178,6 +187,10 @@ def strip_coq_comments(s):
 
 def coq_setup():
     with Lock("coq"):
+        if ALT:
+            os.makedirs(os.path.join(COQ, "generated"), exist_ok=True)
+            sh("rsync -a --delete %s/ %s/" % (shlex.quote(os.path.join(ROOT, "coq", "theories")),
+                                                shlex.quote(os.path.join(COQ, "theories"))))
         os.makedirs(os.path.join(COQ, "extracted"), exist_ok=True)
         mk = os.path.join(COQ, "Makefile")
         cp = os.path.join(COQ, "_CoqProject")
@@ -352,7 +365,7 @@ class Run:
         self.kf = [f for f in known_findings().get("findings", []) if f.get("property") == pid]
 
     def replay_path(self, tag):
-        d = os.path.join(ROOT, "replays")
+        d = os.path.join(OUTDIR, "replays")
         os.makedirs(d, exist_ok=True)
         return os.path.join(d, "%s-%d-%s.json" % (self.pid, self.seed, tag))
 
@@ -377,8 +390,8 @@ class Run:
         ev = {"property_id": self.pid, "tier": self.tier, "seed": self.seed, "level": level,
               "coverage": self.coverage, "assumptions": self.assumptions, "wall_s": round(wall, 2),
               "violations": len(self.violations)}
-        os.makedirs(os.path.join(ROOT, "evidence"), exist_ok=True)
-        json.dump(ev, open(os.path.join(ROOT, "evidence", self.pid + ".json"), "w"), indent=1, default=str)
+        os.makedirs(os.path.join(OUTDIR, "evidence"), exist_ok=True)
+        json.dump(ev, open(os.path.join(OUTDIR, "evidence", self.pid + ".json"), "w"), indent=1, default=str)
         for fp, what in self.known_hits:
             print("KNOWN-FINDING: property=%s %s" % (self.pid, what))
         # one VIOLATION line per distinct replay, at most 5 printed
